@@ -429,6 +429,34 @@ func xwEsc(s string, attr bool) string {
 	return b.String()
 }
 
+// xwCharRef writes the first plain letter of an escaped text as a numeric character reference
+func xwCharRef(esc string) string {
+	inRef := false
+	for i, c := range esc {
+		switch {
+		case c == '&':
+			inRef = true
+		case c == ';':
+			inRef = false
+		case !inRef && (c >= 'a' && c <= 'z' || c > 0x7f):
+			return esc[:i] + fmt.Sprintf("&#x%X;", c) + esc[i+len(string(c)):]
+		}
+	}
+	return esc
+}
+
+// text writes element content: escaped, or - where the text allows it - as a CDATA section
+func (w *xw) text(val string) string {
+	if w.whitespace && w.r.Chance(20) && val != "" && !strings.Contains(val, "]]>") && strings.TrimSpace(val) == val {
+		return "<![CDATA[" + val + "]]>"
+	}
+	e := xwEsc(val, false)
+	if w.whitespace && w.r.Chance(10) {
+		e = xwCharRef(e)
+	}
+	return e
+}
+
 func (w *xw) ws() {
 	if w.whitespace {
 		w.b.WriteString([]string{"", "\n", "\n  ", " ", "\t"}[w.r.Intn(5)])
@@ -459,6 +487,9 @@ func (w *xw) open(name string, attrs [][2]string, selfClose bool) {
 			q = `'`
 		}
 		val := xwEsc(a[1], true)
+		if w.whitespace && w.r.Chance(10) {
+			val = xwCharRef(val)
+		}
 		if q == `'` {
 			val = strings.ReplaceAll(val, "&quot;", `"`)
 		}
@@ -655,7 +686,7 @@ func (w *xw) changeset(c *osm.Changeset) {
 		w.open("discussion", nil, false)
 		for _, cm := range c.Discussion.Comments {
 			w.open("comment", [][2]string{{"user", cm.User}, {"uid", strconv.FormatInt(int64(cm.UserID), 10)}, {"date", xwT(cm.Timestamp)}}, false)
-			w.b.WriteString("<text>" + xwEsc(cm.Text, false) + "</text>")
+			w.b.WriteString("<text>" + w.text(cm.Text) + "</text>")
 			w.close("comment")
 		}
 		w.close("discussion")
@@ -665,7 +696,7 @@ func (w *xw) changeset(c *osm.Changeset) {
 
 func (w *xw) textElem(name, val string) {
 	w.ws()
-	w.b.WriteString("<" + name + ">" + xwEsc(val, false) + "</" + name + ">")
+	w.b.WriteString("<" + name + ">" + w.text(val) + "</" + name + ">")
 }
 
 const xwNoteLayout = "2006-01-02 15:04:05 MST"
